@@ -7,7 +7,7 @@ import ChalkModel.Lemmas.FixedPointSemM
 namespace Chalk.FixedPoint.Cyc
 
 section
-variable {c : Bool} {inst : Instance} {dom : List Nat} {cfg : Cfg}
+variable {c : Bool} {inst : Instance} {dom : List Nat} {fx : Bool} {cfg : Cfg}
 
 /-- caching is enabled and every cache entry is the correct answer -/
 def GoodCache (c : Bool) (inst : Instance) (s : St) : Prop :=
@@ -21,31 +21,43 @@ theorem goodCache_fresh (c : Bool) (inst : Instance) : GoodCache c inst (St.fres
   subst e
   cases hk
 
-/-- every cache entry is the correct answer (vacuous when caching is disabled) -/
-def CacheOK (c : Bool) (inst : Instance) (s : St) : Prop := ∀ k v, InCache s k v → Corr c inst k v
-
 theorem cacheOK_of_none {s : St} (h : s.cache = none) : CacheOK c inst s := by
   rintro k v ⟨cc, e, _⟩
   rw [h] at e
   cases e
 
-/-- TOTAL CORRECTNESS of `solve_root_goal` (no interruption, no work budget, the repaired code),
-    caching enabled or disabled -/
-theorem solveRootGoal_correct_any (hyp : Hyp c inst dom) (h3 : cfg.fixF3 = true) (h7 : cfg.fixF7 = true)
-    (hb : cfg.budget = none) (hov : dom.length ≤ cfg.overflowDepth) (hr : 2 ≤ cfg.rounds)
-    (s : St) (hq : s.oracle = [] ∧ s.oracleDefault = true) (hok : CacheOK c inst s)
+/-- `solve_root_goal` with ANY work budget and ANY `should_continue` oracle (the repaired code; the
+    repairs F10 and F16 are needed only if the oracle can say "stop": `fx`), caching enabled or disabled:
+    it returns the correct answer — or `ambig`, and then solving was interrupted —, or it ends in the
+    budget panic; the cache it leaves is correct in all cases -/
+theorem solveRootGoal_general (hyp : Hyp c inst dom) (h3 : cfg.fixF3 = true) (h7 : cfg.fixF7 = true)
+    (h10 : fx = true → cfg.fixF10 = true) (h16 : fx = true → cfg.fixF16 = true)
+    (hov : dom.length ≤ cfg.overflowDepth) (hr : 2 ≤ cfg.rounds)
+    (s : St) (hfx : fx = true ∨ QuietSt s) (hok : CacheOK c inst s)
     (g : Nat) (hg : g ∈ dom) :
-    ∃ v s', solveRootGoal inst cfg g s = .ok v s' ∧ Corr c inst g v ∧
-      s'.stack = [] ∧ s'.graph = [] ∧ CacheOK c inst s' ∧ s'.cache.isSome = s.cache.isSome := by
-  have i1 : Inv c inst dom { s with stack := [], graph := [], interrupted := false } := by
-    refine ⟨⟨hq.1, hq.2, rfl⟩, hok, ?_, List.nodup_nil, ?_, ?_, ?_, ?_, ?_, ?_, rfl, ?_⟩
+    (∃ v s', solveRootGoal inst cfg g s = .ok v s' ∧ (Corr c inst g v ∨ (v = .ambig ∧ s'.interrupted = true)) ∧
+      s'.stack = [] ∧ s'.graph = [] ∧ CacheOK c inst s' ∧ s'.cache.isSome = s.cache.isSome ∧
+      (QuietSt s → s'.interrupted = false)) ∨
+    (∃ s', solveRootGoal inst cfg g s = .panic .budget s' ∧ cfg.budget ≠ none ∧ CacheOK c inst s') := by
+  have i1 : Inv c inst dom fx { s with stack := [], graph := [], interrupted := false } := by
+    refine ⟨hfx.imp id (fun q => ⟨q, rfl⟩), ?_, hok, ?_, List.nodup_nil, ?_, ?_, ?_, ?_, ?_, ?_, rfl, ?_⟩
+    · intro i n hn; exact absurd hn (by simp)
     · intro e he; cases he
     all_goals first
       | (intro i n d hn; exact absurd hn (by simp))
       | (intro i n hn; exact absurd hn (by simp))
-  obtain ⟨v, m', s', hrun⟩ := solveGoal_tot hyp hb hov hr (cfg.overflowDepth + 1) g none _ i1 hg
-    (by show cfg.overflowDepth < cfg.overflowDepth + 1 + 0; omega)
-  obtain ⟨i', hs', _, hf'⟩ := solveGoal_sem hyp (cfg.overflowDepth + 1) g none _ v m' s' i1 hg hrun
+  cases solveGoal_good hyp h3 h10 h16 hov hr (cfg.overflowDepth + 1) g none _ i1 hg
+    (by show cfg.overflowDepth < cfg.overflowDepth + 1 + 0; omega) with
+  | inr hp =>
+    obtain ⟨s', hrun, h2⟩ := hp
+    refine Or.inr ⟨s', ?_, h2⟩
+    unfold solveRootGoal
+    simp only [h7, h3, Bool.not_true, Bool.false_and, Bool.false_eq_true, if_false, if_true]
+    rw [hrun]
+  | inl hok' =>
+  left
+  obtain ⟨⟨v, m'⟩, s', hrun⟩ := hok'
+  obtain ⟨i', hs', _, hf'⟩ := solveGoal_sem hyp h3 h10 (cfg.overflowDepth + 1) g none _ v m' s' i1 hg hrun
   have hstack : s'.stack = [] := List.eq_nil_of_length_eq_zero hs'.stack.1
   have hgraph : s'.graph = [] := by
     cases hgr : s'.graph with
@@ -61,20 +73,55 @@ theorem solveRootGoal_correct_any (hyp : Hyp c inst dom) (h3 : cfg.fixF3 = true)
       | none =>
         obtain ⟨l, _, hl⟩ := i'.nonstk 0 n hn hsd
         exact Nat.not_lt_zero _ hl
-  refine ⟨v, s', ?_, ?_, hstack, hgraph, i'.cacheOK, hs'.cacheMode⟩
+  refine ⟨v, s', ?_, ?_, hstack, hgraph, i'.cacheOK, hs'.cacheMode, fun q => (hs'.quiet q).2 rfl⟩
   · unfold solveRootGoal
     simp only [h7, h3, Bool.not_true, Bool.false_and, Bool.false_eq_true, if_false, if_true]
     rw [hrun]
-  · cases hf' with
-    | inl h =>
-      refine Or.inl ⟨h.1, ?_⟩
+  · rcases hf' with h | h | h
+    · refine Or.inl (Or.inl ⟨h.1, ?_⟩)
       cases h.2 with
       | inl ht => exact ht
       | inr hw =>
         obtain ⟨i, n, hn, _⟩ := hw
         rw [hgraph] at hn
         simp at hn
-    | inr h => exact Or.inr ⟨h.1, h.2.1⟩
+    · exact Or.inl (Or.inr ⟨h.1, h.2.1⟩)
+    · exact Or.inr h
+
+/-- `solve_root_goal` with ANY work budget (no interruption, the repaired code), caching enabled or
+    disabled: it returns the correct answer, or it ends in the budget panic; the cache it leaves is
+    correct in both cases -/
+theorem solveRootGoal_good (hyp : Hyp c inst dom) (h3 : cfg.fixF3 = true) (h7 : cfg.fixF7 = true)
+    (hov : dom.length ≤ cfg.overflowDepth) (hr : 2 ≤ cfg.rounds)
+    (s : St) (hq : s.oracle = [] ∧ s.oracleDefault = true) (hok : CacheOK c inst s)
+    (g : Nat) (hg : g ∈ dom) :
+    (∃ v s', solveRootGoal inst cfg g s = .ok v s' ∧ Corr c inst g v ∧
+      s'.stack = [] ∧ s'.graph = [] ∧ CacheOK c inst s' ∧ s'.cache.isSome = s.cache.isSome) ∨
+    (∃ s', solveRootGoal inst cfg g s = .panic .budget s' ∧ cfg.budget ≠ none ∧ CacheOK c inst s') := by
+  cases solveRootGoal_general (fx := false) hyp h3 h7 (fun e => by cases e) (fun e => by cases e) hov hr s
+      (Or.inr hq) hok g hg with
+  | inr h => exact Or.inr h
+  | inl h =>
+    obtain ⟨v, s', h1, h2, h3', h4, h5, h6, h7'⟩ := h
+    refine Or.inl ⟨v, s', h1, ?_, h3', h4, h5, h6⟩
+    cases h2 with
+    | inl hc => exact hc
+    | inr ha =>
+      have := h7' hq
+      rw [ha.2] at this
+      cases this
+
+/-- TOTAL CORRECTNESS of `solve_root_goal` (no interruption, no work budget, the repaired code),
+    caching enabled or disabled -/
+theorem solveRootGoal_correct_any (hyp : Hyp c inst dom) (h3 : cfg.fixF3 = true) (h7 : cfg.fixF7 = true)
+    (hb : cfg.budget = none) (hov : dom.length ≤ cfg.overflowDepth) (hr : 2 ≤ cfg.rounds)
+    (s : St) (hq : s.oracle = [] ∧ s.oracleDefault = true) (hok : CacheOK c inst s)
+    (g : Nat) (hg : g ∈ dom) :
+    ∃ v s', solveRootGoal inst cfg g s = .ok v s' ∧ Corr c inst g v ∧
+      s'.stack = [] ∧ s'.graph = [] ∧ CacheOK c inst s' ∧ s'.cache.isSome = s.cache.isSome := by
+  cases solveRootGoal_good hyp h3 h7 hov hr s hq hok g hg with
+  | inl h => exact h
+  | inr h => obtain ⟨_, _, hne, _⟩ := h; exact absurd hb hne
 
 /-- … with caching enabled -/
 theorem solveRootGoal_correct (hyp : Hyp c inst dom) (h3 : cfg.fixF3 = true) (h7 : cfg.fixF7 = true)
